@@ -1417,7 +1417,7 @@ impl KotoVm {
                             }
                         }
                         Some(KIteratorOutput::Error(error)) => {
-                            return runtime_error!(error.to_string());
+                            return Err(error);
                         }
                         None => None,
                     }
